@@ -299,6 +299,8 @@ func scopes() map[string]*PropScope {
 			Cfg: func(e *Engine, f *ssa.Function, root bool) *FnConfig { return &FnConfig{} },
 		})
 	}
+	tagged("C13", "contract-based deductive verification: RFC 791 fragment arithmetic of the security checks over mathematical integers, exact truth table of dontDefrag, z3/cvc5",
+		"insert/build contracts with the ghost sequence model of container/list are not written yet: the safety half ('never a byte no fragment put there', consistent header) and the history theorem (returns the datagram exactly when the last fragment arrives) are not claimed", "ip6defrag")
 	tagged("C16", "contract-based deductive verification: sequential clauses of the packet source (zero-copy guard, pull interface) with an interface contract for options checked on every implementer, z3/cvc5",
 		"everything about the channel goroutine: exactly-once through the channel, retry timing, close on EOF, cancellation latency (schedules)")
 	tagged("C08", "contract-based deductive verification: functional contracts against RFC 1071 spec functions (sum16/oc16), loop invariants, z3/cvc5")
